@@ -53,14 +53,16 @@ def r1(R, repo):
           '_graph_flatten writes attribute kinds %s but _graph_unflatten dispatches on %s' % (sorted(produced), sorted(read)))
   last = [n for n in ast.walk(gc.node) if isinstance(n, ast.If)]
   chain_else = None
-  cur = [s for s in ast.walk(gc.node) if isinstance(s, ast.For)][0].body[0]
+  _loops = [s for s in ast.walk(gc.node) if isinstance(s, ast.For)]
+  R.require(bool(_loops), '_get_children: loop over the attributes not found')
+  cur = ([s for s in _loops[0].body if isinstance(s, ast.If)] or [None])[0]
   while isinstance(cur, ast.If):
     if len(cur.orelse) == 1 and isinstance(cur.orelse[0], ast.If):
       cur = cur.orelse[0]
     else:
       chain_else = cur.orelse
       break
-  R.check(bool(chain_else) and isinstance(chain_else[-1], ast.Raise), key_of(gc, 'unknown attribute kind raises'), gc, '_get_children must raise for an unknown attribute kind')
+  R.check(bool(chain_else) and any(isinstance(s_, ast.Raise) for s_ in chain_else), key_of(gc, 'unknown attribute kind raises'), gc, '_get_children must raise for an unknown attribute kind')
   # top-level dispatch of _graph_unflatten: NodeRef / VariableDef / NodeDef
   un = mod.func('_graph_unflatten')
   top = set(_type_is_branches(un, 'nodedef'))
